@@ -98,6 +98,36 @@ def a_batch_create_destroy(w, h):
         h.dead.append(uid)
 
 
+def _batch_then_destroy(first, kind, tags):
+    """[creating operation, Destroy without identifier]: the placeholder names an object made by THIS
+    batch; the Destroy answer says which one died."""
+    def act(w, h):
+        r = w.do((1, 2), [first(h), W.p_destroy()])
+        made = [u for u in (_new(h, r, 'alice', 'default', kind, 0, t) for t in tags) if u]
+        if made and len(r.items) > 1 and r.items[1].ok():
+            died = r.pfind(W.TAG.UNIQUE_IDENTIFIER, 1)
+            if died not in made:
+                h.problems.append(("placeholder-foreign", "the batch made %s, its identifier-less Destroy "
+                                   "answered for %s" % (made, died)))
+            if died in h.live:
+                del h.live[died]
+            h.dead.append(died)
+    return act
+
+
+def _derive_item(h):
+    base = [u for u in h.live if h.live[u]['owner'] == 'alice' and h.live[u]['kind'] == 'sym']
+    return W.p_derive_key([min(base, key=int) if base else '1'])
+
+
+a_batch_derive_destroy = _batch_then_destroy(_derive_item, 'sym', [W.TAG.UNIQUE_IDENTIFIER])
+a_batch_register_destroy = _batch_then_destroy(lambda h: W.p_register(W.pie_secret()), 'secret',
+                                               [W.TAG.UNIQUE_IDENTIFIER])
+a_batch_keypair_destroy = _batch_then_destroy(
+    lambda h: W.p_create_key_pair(**W.rsa_pair_attrs()), 'pair',
+    [W.TAG.PUBLIC_KEY_UNIQUE_IDENTIFIER, W.TAG.PRIVATE_KEY_UNIQUE_IDENTIFIER])
+
+
 def a_batch_create_then_fail(w, h):
     """A creating item reported successful, followed by a failing item in the same batch: the
     identifier was handed out, the object exists."""
@@ -181,6 +211,7 @@ ACTIONS = {
     'register_secret_a': a_register_secret_a, 'keypair_a': a_keypair_a, 'derive_a': a_derive_a,
     'batch_create_destroy_b': a_batch_create_destroy,
     'batch_create_then_fail_b': a_batch_create_then_fail,
+    'batch_derive_destroy_a': a_batch_derive_destroy,
     'batch_register_fail_create_a': a_batch_register_fail_create,
     'destroy_newest_owner': a_destroy_newest_owner, 'destroy_oldest_owner': a_destroy_oldest_owner,
     'destroy_newest_other': a_destroy_newest_other,
@@ -227,6 +258,8 @@ def _spelled_destroy(k):
     return act
 
 
+ACTIONS['batch_register_destroy_a'] = a_batch_register_destroy      # linear families only
+ACTIONS['batch_keypair_destroy_a'] = a_batch_keypair_destroy
 for _k in range(len(SPELLINGS)):
     ACTIONS['destroy_spelled:%s' % SPELLINGS[_k][0]] = _spelled_destroy(_k)
 
@@ -323,6 +356,7 @@ def explore(w, h, path, depth, part):
             W.CLOCK.now = W.T0 + len(path) + 1
             before = w.dump()
             dead_before = set(hc.dead)
+            ever_before = set(hc.ever)
             ACTIONS[name](c, hc)
             part.count('transitions')
             destroyed_now = [u for u in hc.dead if u not in dead_before]
@@ -330,7 +364,7 @@ def explore(w, h, path, depth, part):
             full = name.startswith('restart')
             after = check_state(c, hc, full, bad, destroyed_now=destroyed_now)
             if destroyed_now:
-                ex = set(destroyed_now)
+                ex = set(destroyed_now) | (set(hc.ever) - ever_before)     # and what the same action created
                 if _rows_of_others(before, ex) != _rows_of_others(after, ex):
                     bad.append(("destroy-disturbs-others",
                                 "Destroy of %s changed rows of other objects" % destroyed_now))
@@ -368,6 +402,10 @@ def reuse_family(tier):
                     if tier == 'thorough':
                         for c2 in CREATORS[:3]:
                             out.append(h + ['destroy_newest_owner', c2])
+    for b in ('batch_derive_destroy_a', 'batch_register_destroy_a', 'batch_keypair_destroy_a'):
+        for p in ([], ['create_a'], ['create_a', 'register_secret_a'], ['keypair_a']):
+            for r in RESTARTS:
+                out.append(['create_a'] + p + [b] + ([r] if r else []) + ['create_a'])
     for name, _ in SPELLINGS:
         for p in (['create_a'], ['create_b_open', 'create_a', 'create_a'], ['register_secret_a']):
             for r in RESTARTS:
@@ -383,14 +421,15 @@ def run_linear(path, part):
             W.CLOCK.now = W.T0 + i + 1
             before = w.dump()
             dead_before = set(h.dead)
+            ever_before = set(h.ever)
             ACTIONS[name](w, h)
             part.count('transitions')
             bad = []
             destroyed_now = [u for u in h.dead if u not in dead_before]
             after = check_state(w, h, name.startswith('restart') or i == len(path) - 1, bad,
                                 destroyed_now=destroyed_now)
-            if destroyed_now and _rows_of_others(before, set(destroyed_now)) != \
-                    _rows_of_others(after, set(destroyed_now)):
+            if destroyed_now and _rows_of_others(before, set(destroyed_now) | (set(h.ever) - ever_before)) != \
+                    _rows_of_others(after, set(destroyed_now) | (set(h.ever) - ever_before)):
                 bad.append(("destroy-disturbs-others", "rows of other objects changed"))
             for key, what in bad:
                 part.violation("%s|after=%s" % (key, name), what + " after " + str(path[:i + 1]),
@@ -486,12 +525,13 @@ def replay(doc):
             W.CLOCK.now = W.T0 + i + 1
             before = w.dump()
             dead_before = set(h.dead)
+            ever_before = set(h.ever)
             ACTIONS[name](w, h)
             bad = []
             destroyed_now = [u for u in h.dead if u not in dead_before]
             after = check_state(w, h, True, bad, destroyed_now=destroyed_now)
-            if destroyed_now and _rows_of_others(before, set(destroyed_now)) != \
-                    _rows_of_others(after, set(destroyed_now)):
+            if destroyed_now and _rows_of_others(before, set(destroyed_now) | (set(h.ever) - ever_before)) != \
+                    _rows_of_others(after, set(destroyed_now) | (set(h.ever) - ever_before)):
                 bad.append(("destroy-disturbs-others", "rows of other objects changed"))
             lines.append("%s: ever=%s dead=%s %s" % (name, h.ever, h.dead, bad or ''))
             anybad = anybad or bool(bad)
